@@ -607,6 +607,8 @@ class Run:
         self.steps = 0
         self.rounds = []  # per sprouting round: dict(stage records)
         self.deme_objs = {}
+        self.engine_cases = []  # (driver line, expected answer, SHADE archive) per recorded engine generation
+        self.record_engines = False
 
     # -- wrappers -------------------------------------------------------------------------
     def _wrap_gsc(self, inner):
@@ -693,6 +695,48 @@ class Run:
         sm.get_seeds = gs
         return sm
 
+    def _wrap_engine(self, d):
+        """every generation a DE / SHADE / SEA-family deme makes in this run is also a case of the engine-level
+        correspondence: the engine's `run` is executed under the recorder of NumPy's generator functions and the
+        driver line + expected answer are kept (`self.engine_cases`); the model has to reproduce the generation
+        bit for bit (harness/engine.py)"""
+        if not getattr(self, "record_engines", False):
+            return
+        from . import engine as E
+
+        box = [tuple(float(t) for t in b) for b in self.spec["bounds"]]
+        mx = bool(self.spec["maximize"])
+        run = self
+        eng, which = None, None
+        if hasattr(d, "_de"):
+            eng = d._de
+            which = 1 if type(eng._mutation).__name__ == "BinaryMutationWithDither" else 0
+        elif hasattr(d, "_shade"):
+            eng, which = d._shade, 2
+        elif hasattr(d, "_ea") and type(d._ea).__name__ in ("SEA", "SEAWithCrossover", "GAStyleSEA", "SEAWithAdaptiveMutation"):
+            eng, which = d._ea, "sea"
+        if eng is None or getattr(eng, "_verif_wrapped", False):
+            return
+        orig = eng.run
+
+        def wrapped(parents, **kw):
+            if len(run.engine_cases) >= 60:
+                return orig(parents, **kw)
+            try:
+                eng.run = orig
+                if which == "sea":
+                    new, line, expect, meta = E.traced_sea_generation(eng, parents, box, mx, kw)
+                    run.engine_cases.append((line, expect, None))
+                else:
+                    new, line, expect, extra, _ = E.traced_de_generation(eng, which, parents, box, mx, kw=kw)
+                    run.engine_cases.append((line, expect, extra))
+                return new
+            finally:
+                eng.run = wrapped
+
+        eng.run = wrapped
+        eng._verif_wrapped = True
+
     # -- execution ----------------------------------------------------------------------------
     def execute(self, on_boundary=None, on_gsc=None):
         import pyhms.tree as T
@@ -771,6 +815,7 @@ class Run:
                 run.who = None
 
             d.run_metaepoch = run_me
+            run._wrap_engine(d)
             return d
 
         T.init_from_config = init
